@@ -35,7 +35,9 @@ Section VerifyP.
 
   Definition verify_qc_p (q : qc) : result unit :=
     if N.eqb (qc_hash q) (c_genesis c) then
-      (if N.eqb (qc_view q) 0%N then Ok tt else Reject)
+      (if N.eqb (qc_view q) 0%N
+       then (match qc_sig q with None => Ok tt | Some _ => Reject end)
+       else Reject)
     else match qc_sig q with
     | None => Reject
     | Some s =>
